@@ -184,6 +184,7 @@ Plan gen_w3(uint64_t seed, const std::string& tier, const std::string& focus) {
         if (shape == SH_SPHERE && r.coin(0.6)) { pl.p[pre + "elong"] = r.uni(1.2, 2.2); pl.p[pre + "elong_axis"] = (int)r.below(3); }
         double u = r.uni(); pl.p[pre + "axis"] = u < 0.45 ? 0 : (u < 0.8 ? r.range(1, 6) : 7);
         pl.p[pre + "mother"] = (mode == 0) ? 1 : r.coin(0.6); pl.p[pre + "tvf"] = r.uni(0.8, 1.3);
+        if (r.coin(0.7)) { pl.p[pre + "y"] = R * r.uni(-3, 3); pl.p[pre + "z"] = R * r.uni(-3, 3); if (r.coin(0.2)) { pl.p[pre + "y"] = pl.p[pre + "y"] * 30; pl.p[pre + "z"] = pl.p[pre + "z"] * 30; } }   // mothers anywhere in space, not only on the x axis (the division plane passes through the centroid, not through the origin)
     }
     if (mode == 1) { bool any = false; for (int k = 0; k < n; k++) any |= pl.geti("c" + std::to_string(k) + "_mother") != 0; if (!any) pl.p["c0_mother"] = 1; }
     if (r.coin(0.3)) { pl.p["growth_sigma"] = 4e-12; pl.p["div_sigma"] = 1e-16; }
